@@ -19,6 +19,7 @@ import (
 type heapImage struct {
 	Root    any              `json:"root"`
 	Objects []map[string]any `json:"objects"`
+	Steps   []string         `json:"steps"`
 }
 
 var imageCache sync.Map // path -> *heapImage
